@@ -136,6 +136,7 @@ def _aggregate(res: FuncResult, jobs, verdicts):
         if ob.kind == "COVER":
             ob.verdict = "failed"  # a COVER obligation is only ever emitted when the cover failed
             continue
+        vs = [(k, v) for k, v in vs if v[0] != "skipped"]
         if any(v[0] == "sat" for _, v in vs):
             ob.verdict = "failed"
             k, v = next((k, v) for k, v in vs if v[0] == "sat")
@@ -154,6 +155,9 @@ def _aggregate(res: FuncResult, jobs, verdicts):
             ob.solver = "z3+cvc5"
 
 
+HOUDINI_BUDGET_S = float(os.environ.get("VERIF_HOUDINI_BUDGET_S", "240"))
+
+
 def _verify_one(args):
     """generate + discharge one function; when an invariant conjunct is refuted, try to re-establish the proof
     without it (Houdini, DESIGN.md 2.7) so that the property-bearing obligation that depended on it shows."""
@@ -165,7 +169,10 @@ def _verify_one(args):
     mod = importlib.import_module(contracts_mod)
     registry = mod.REGISTRY
     dropped = []
-    for _round in range(8):
+    t_start = time.time()
+    for _round in range(4):
+        if _round and time.time() - t_start > HOUDINI_BUDGET_S:
+            break
         res, jobs = generate(qualname, registry, mod.SPECFUNS, getattr(mod, "ENGINE", None))
         verdicts = solve.discharge_objects(jobs, workers=inner_workers)
         _aggregate(res, jobs, verdicts)
